@@ -922,6 +922,14 @@ where
                 // waiting in the channel. It must not take part in an admission contest,
                 // where it could evict a live entry. Remove it, but not a newer value of
                 // the same key.
+                #[cfg(mini_moka_verif)]
+                self.verif_emit(
+                    "upsert.dead",
+                    Some(&kh.key),
+                    Self::verif_info_id(&entry),
+                    _old_weight as u64,
+                    new_weight as u64,
+                );
                 self.cache
                     .remove_if(&kh.key, |_, v| TrioArc::ptr_eq(v, &entry));
                 return;
